@@ -387,8 +387,9 @@ impl AssignTable {
     pub fn check_refered(&self, id: &VarId, index: &[usize], mask: &BigUint) -> bool {
         if let Some(x) = self.refernced.get(id) {
             if let Some(i) = x.array.calc_index(index) {
-                ((&x.mask_ref[i] & mask) != 0u32.into())
-                    && ((&x.mask_ref[i] & mask & &x.mask_assign[i]) == 0u32.into())
+                // Per bit: some referred bit in `mask` is not assigned yet.
+                let referred = &x.mask_ref[i] & mask;
+                (&referred & &x.mask_assign[i]) != referred
             } else {
                 false
             }
